@@ -71,11 +71,17 @@ def bounds_total(ctx, rule='C08.bounds-total'):
         (rn,) = ctx.need('<Range as Iterator>::next')
     except AnchorError as e:
         return [unresolved(rule, str(e))]
-    fn = rn
-    du = ctx.du(fn)
+    du = ctx.du(rn)
     VAR = {0: 'Included', 1: 'Excluded', 2: 'Unbounded'}
+    scope = [rn] + sorted((g for g in ctx.facts.reachable_fns([rn]) if g is not rn and g.self_adt == rn.self_adt), key=lambda f: f.path)
     for method in ('start_bound', 'end_bound'):
-        sws = _bound_switches(fn, method)
+        fn, sws = rn, []
+        for g in scope:     # the match may have been extracted into a helper method of Range
+            sw = _bound_switches(g, method)
+            if sw:
+                fn, sws = g, sw
+                break
+        du = ctx.du(fn)
         if not sws:
             res.append(bad(rule, '%s | %s never consulted' % (fn.qual, method), 'Range::next never calls %s(): that bound cannot be honoured' % method, where='%s:%d' % (fn.file, fn.line)))
             continue
@@ -127,9 +133,13 @@ def start_compare(ctx, rule='C08.start-compare'):
         rn, cur = ctx.need('<Range as Iterator>::next', 'Cursor::current')
     except AnchorError as e:
         return [unresolved(rule, str(e))]
-    fn = rn
+    fn, sws = rn, []
+    for g in [rn] + sorted((g for g in ctx.facts.reachable_fns([rn]) if g is not rn and g.self_adt == rn.self_adt), key=lambda f: f.path):
+        sw = [x for x in _bound_switches(g, 'start_bound') if x[2] is not None]
+        if sw:
+            fn, sws = g, sw
+            break
     du = ctx.du(fn)
-    sws = [x for x in _bound_switches(fn, 'start_bound') if x[2] is not None]
     if not sws:
         return [floor(rule, 'matches on start_bound()', 0, 1)]
     VAR = {0: 'Included', 1: 'Excluded', 2: 'Unbounded'}
@@ -233,6 +243,11 @@ def filter_total(ctx, rule='C08.filter-total'):
                 inner.append(bb)
         none_blocks = [bb for bb in fn.reachable_blocks() for s in fn.blocks[bb]['stmts']
                        if s['k'] == 'assign' and s['p']['l'] == 0 and s['rv']['k'] == 'agg' and s['rv'].get('variant') == 'None']
+        adaptors = [bb for bb in sorted(fn.reachable_blocks()) if fn.term(bb)['k'] == 'call' and callee_of(fn.term(bb)) and
+                    callee_of(fn.term(bb))['path'] in ('std::iter::Iterator::find_map', 'std::iter::Iterator::find', 'std::iter::Iterator::filter_map', 'std::iter::Iterator::filter')]
+        if adaptors and not inner:
+            res.append(ok(rule, '%s delegates to a std iterator adaptor (find_map / find / filter_map), which scans until a match or exhaustion' % fn.qual, sites=len(adaptors)))
+            continue
         if not inner or not none_blocks:
             res.append(floor(rule, '%s: inner next() calls / None returns' % q, 0, 1))
             continue
